@@ -905,6 +905,92 @@ def _analyse_own(chk):
         chk.tree = orig_tree
 
 
+ACCUM_FILES = ["ciderpress/pyscf/numint.py", "ciderpress/dft/plans.py", "ciderpress/dft/xc_evaluator.py",
+               "ciderpress/dft/xc_evaluator2.py", "ciderpress/dft/feat_normalizer.py", "ciderpress/dft/transform_data.py",
+               "ciderpress/dft/lcao_nldf_generator.py", "ciderpress/dft/lcao_interpolation.py",
+               "ciderpress/dft/lcao_convolutions.py", "ciderpress/pyscf/sdmx.py"]
+
+
+def _stmt_of(x):
+    while not isinstance(x, ast.stmt):
+        x = pf.parent(x)
+    return x
+
+
+def rule_accum_consumed(chk):
+    """A local array created as zeros, handed as a bare argument to a call statement (the callee accumulates into it) and
+    read afterwards in the value of an assignment / return on some path must be read on EVERY path from the filling
+    call to a normal return: a path that returns without reading it drops the accumulated (derivative) term that the
+    other paths chain into the result."""
+    n = 0
+    for rel in ACCUM_FILES:
+        mod = chk.tree.py(rel)
+        for fn in ast.walk(mod):
+            if not isinstance(fn, ast.FunctionDef):
+                continue
+            params = {a.arg for a in fn.args.args + fn.args.kwonlyargs + fn.args.posonlyargs}
+            zeros = {}
+            for st in pf.walk_no_nested(fn):
+                if isinstance(st, ast.Assign) and len(st.targets) == 1 and isinstance(st.targets[0], ast.Name) \
+                        and isinstance(st.value, ast.Call) and (pf.call_name(st.value) or "").split(".")[-1] in ("zeros", "zeros_like"):
+                    zeros.setdefault(st.targets[0].id, []).append(st)
+            zeros = {k: v[0] for k, v in zeros.items() if len(v) == 1 and k not in params}
+            if not zeros:
+                continue
+            occ = {}
+            for x in pf.walk_no_nested(fn):
+                if isinstance(x, ast.Name) and x.id in zeros:
+                    occ.setdefault(x.id, []).append(x)
+            g = None
+            for nm in sorted(occ):
+                if sum(1 for x in occ[nm] if isinstance(x.ctx, ast.Store)) != 1:
+                    continue
+                fills, reads = set(), set()
+                fill_st = {}
+                for x in occ[nm]:
+                    if not isinstance(x.ctx, ast.Load):
+                        continue
+                    st, par = _stmt_of(x), pf.parent(x)
+                    if isinstance(st, ast.Expr) and isinstance(st.value, ast.Call) and (
+                            (isinstance(par, ast.Call) and any(a is x for a in par.args)) or isinstance(par, ast.keyword)):
+                        fills.add(id(st))
+                        fill_st[id(st)] = st
+                    elif isinstance(st, (ast.Assign, ast.AugAssign, ast.Return)) and st.value is not None \
+                            and any(y is x for y in ast.walk(st.value)):
+                        reads.add(id(st))
+                if not fills or not reads:
+                    continue
+                g = g or cfgm.CFG(fn)
+                if any(i not in g.by_ast for i in fills | reads):
+                    continue
+                read_nodes = {g.by_ast[i].id for i in reads}
+                seen, todo, dropped = set(), [g.by_ast[i].id for i in fills], False
+                while todo:
+                    u = todo.pop()
+                    if u in seen:
+                        continue
+                    seen.add(u)
+                    for v in g.succ[u]:
+                        if v in read_nodes:
+                            continue
+                        if v == g.exit.id:
+                            dropped = True
+                        todo.append(v)
+                n += 1
+                fq = pf.qualname(fn)
+                inst = "%s:%s accumulator %s is consumed on every path to the return" % (rel, fq, nm)
+                if not dropped:
+                    chk.ok("accum-consumed", inst)
+                else:
+                    f0 = fill_st[sorted(fills, key=lambda i: fill_st[i].lineno)[0]]
+                    chk.violation("accum-consumed", rel, fq, "accumulator %s dropped on a path" % nm, fn.lineno,
+                                  "`%s` starts as zeros, is filled by `%s` and is chained into the result on some paths, but a "
+                                  "path from that call to the return of %s never reads it: on that path the accumulated "
+                                  "derivative term is dropped, so the returned derivative lacks it" % (
+                                      nm, batch.head_text(f0)[:70], fq), instance=inst)
+    chk.count("zero-initialised accumulators filled by a callee and read afterwards", n)
+
+
 def _analyse_rules(chk):
     chk.rule("potential-consume", "(vxc, vxc_nldf, vxc_sdmx) of eval_xc_cider are each consumed by def-use")
     chk.rule("ladder-mirror", "forward and backward family ladders of eval_xc_cider mirror each other")
@@ -920,6 +1006,9 @@ def _analyse_rules(chk):
     chk.guard(rule_energy_nelec)
     chk.guard(rule_level_flag)
     chk.guard(rule_inplace_product)
+    chk.rule("accum-consumed", "a zero-initialised accumulator filled by a callee and read on some path is read on every path to the return")
+    chk.guard(rule_accum_consumed)
+    chk.floor("accum-consumed", 3, "callee-filled accumulators of the anchored python files (normalizer back-propagation, interpolator, evaluators)")
     chk.floor("inplace-product", 1, "NLDFAuxiliaryPlan.get_function_to_convolve (rho_mult == 'expnt')")
     chk.floor("level-flag", 2, "calls of the rho-tuple helpers that carry the semilocal level")
     chk.floor("potential-consume", 18, "12 functions x 3 potentials")
@@ -953,6 +1042,9 @@ def analyse(chk):
 
 def mutants(tree):
     return [
+        Mutant("normalizer back-propagation drops dfdinh in mode np", "ciderpress/dft/feat_normalizer.py",
+               '        elif self.slmode == "np":\n            df_dX0T[:, 1] += 5.0 / 3 * dfdinh\n',
+               '        elif self.slmode == "np":\n            pass\n', count=1, expect="accum-consumed"),
         Mutant("drop sdmx get_vxc_ call (nr_rks)", NUMINT,
                "                if ni.has_sdmx:\n                    ni.sdmxgen.get_vxc_(vmat[i], vxc_sdmx[0] * weight)\n", "",
                expect="potential-consume"),
